@@ -170,6 +170,51 @@ func encScr(e ff.Element) string {
 	return s
 }
 
+// Variadic arguments are passed as a prefix of a longer slice whose next entry is a sentinel: a callee that
+// appends to its variadic parameter writes into the caller's slice (C16: arguments are left unchanged).
+var sentinelU = &univariate.Polynomial{}
+var sentinelB = &bivariate.Polynomial{}
+
+func spreadU(gs []*univariate.Polynomial) []*univariate.Polynomial {
+	all := make([]*univariate.Polynomial, len(gs)+1)
+	copy(all, gs)
+	all[len(gs)] = sentinelU
+	return all[:len(gs)]
+}
+
+func clobberedU(gs []*univariate.Polynomial, orig []*univariate.Polynomial) bool {
+	full := gs[:len(gs)+1]
+	if full[len(gs)] != sentinelU {
+		return true
+	}
+	for i := range orig {
+		if gs[i] != orig[i] {
+			return true
+		}
+	}
+	return false
+}
+
+func spreadB(gs []*bivariate.Polynomial) []*bivariate.Polynomial {
+	all := make([]*bivariate.Polynomial, len(gs)+1)
+	copy(all, gs)
+	all[len(gs)] = sentinelB
+	return all[:len(gs)]
+}
+
+func clobberedB(gs []*bivariate.Polynomial, orig []*bivariate.Polynomial) bool {
+	full := gs[:len(gs)+1]
+	if full[len(gs)] != sentinelB {
+		return true
+	}
+	for i := range orig {
+		if gs[i] != orig[i] {
+			return true
+		}
+	}
+	return false
+}
+
 // scribbleElem changes an element in place the way a caller owning it might
 func scribbleElem(e ff.Element) {
 	if e == nil {
@@ -436,7 +481,11 @@ func (h *hist) step(line string) (out string) {
 			for _, g := range t[2:] {
 				gs = append(gs, h.us[regNum(g)])
 			}
-			q, r, err := h.us[regNum(a0)].QuoRem(gs...)
+			sp := spreadU(gs)
+			q, r, err := h.us[regNum(a0)].QuoRem(sp...)
+			if clobberedU(sp, gs) {
+				return "CLOBBERED the caller's argument slice"
+			}
 			if err != nil {
 				return "err " + kindOf(err)
 			}
@@ -454,7 +503,11 @@ func (h *hist) step(line string) (out string) {
 			for _, g := range t[2:] {
 				gs = append(gs, h.bs[regNum(g)])
 			}
-			q, r, err := h.bs[regNum(a0)].QuoRem(gs...)
+			sp := spreadB(gs)
+			q, r, err := h.bs[regNum(a0)].QuoRem(sp...)
+			if clobberedB(sp, gs) {
+				return "CLOBBERED the caller's argument slice"
+			}
 			if err != nil {
 				return "err " + kindOf(err)
 			}
@@ -627,7 +680,11 @@ func (h *hist) step(line string) (out string) {
 					for _, k := range regNums(a0) {
 						gs = append(gs, h.us[k])
 					}
-					id, err := R.NewIdeal(gs...)
+					sp := spreadU(gs)
+					id, err := R.NewIdeal(sp...)
+					if clobberedU(sp, gs) {
+						return "CLOBBERED the caller's argument slice"
+					}
 					if err != nil {
 						return "err " + kindOf(err)
 					}
@@ -705,7 +762,11 @@ func (h *hist) step(line string) (out string) {
 				for _, g := range t[1:] {
 					gs = append(gs, h.us[regNum(g)])
 				}
-				r, err := univariate.Gcd(gs[0], gs[1:]...)
+				sp := spreadU(gs[1:])
+				r, err := univariate.Gcd(gs[0], sp...)
+				if clobberedU(sp, gs[1:]) {
+					return "CLOBBERED the caller's argument slice"
+				}
 				if err != nil {
 					return "err " + kindOf(err)
 				}
@@ -829,7 +890,11 @@ func (h *hist) step(line string) (out string) {
 				for _, g := range t[2:] {
 					gs = append(gs, h.bs[regNum(g)])
 				}
-				r, err := h.bs[regNum(a0)].Rem(gs...)
+				sp := spreadB(gs)
+				r, err := h.bs[regNum(a0)].Rem(sp...)
+				if clobberedB(sp, gs) {
+					return "CLOBBERED the caller's argument slice"
+				}
 				if err != nil {
 					return "err " + kindOf(err)
 				}
@@ -859,7 +924,11 @@ func (h *hist) step(line string) (out string) {
 				for _, g := range t[1:] {
 					gs = append(gs, h.bs[regNum(g)])
 				}
-				id, err := h.br[idx].NewIdeal(gs...)
+				sp := spreadB(gs)
+				id, err := h.br[idx].NewIdeal(sp...)
+				if clobberedB(sp, gs) {
+					return "CLOBBERED the caller's argument slice"
+				}
 				if err != nil {
 					return "err " + kindOf(err)
 				}
